@@ -173,6 +173,9 @@ func (matrix *SparseInt16Matrix) DIAG() *SparseInt16Vector {
   return v
 }
 func (matrix *SparseInt16Matrix) SLICE(rfrom, rto, cfrom, cto int) *SparseInt16Matrix {
+  if rfrom < 0 || rfrom > rto || rto > matrix.rows || cfrom < 0 || cfrom > cto || cto > matrix.cols {
+    panic(fmt.Errorf("slice (%d:%d,%d:%d) out of bounds for matrix of dimension %dx%d", rfrom, rto, cfrom, cto, matrix.rows, matrix.cols))
+  }
   m := *matrix
   m.rowOffset += rfrom
   m.rows = rto - rfrom
